@@ -1,10 +1,10 @@
 package mon
 
 import (
-	"regexp"
 	"fmt"
 	"math/rand"
 	"reflect"
+	"regexp"
 	"sort"
 	"strings"
 
